@@ -4,14 +4,15 @@ import ScenicModel.Model.SimCo
 `docs/reference/dynamic_scenarios.rst`, steps 1–10, read as a language of event logs:
 
     create* upd(0)
-    ( scenario-events*  [ri] r* traj(t)            -- 1 (compose blocks, requirement / time-limit /
+    ( scenario-events*  ri* r* traj(t)             -- 1 (compose blocks, requirement / time-limit /
                                                    --    termination checks, stops), 2 (records)
       monitor-events*                              -- 3
-      ts-cond*                                     -- 4 (terminate simulation when …; step limit)
+      ts-cond(false)*                              -- 4 (terminate simulation when …; step limit)
       sched(order) (bstep(a) behavior-events-of-a*)* -- 5, one `bstep` per scheduled agent, in order
       act(t) sim(t) upd(t+1) )*                    -- 6, 7, 8+9
-    … the last iteration may end after 3, inside/after 4, or inside 5 …
-    stop* [rf]                                     -- 10
+    … the last iteration may end after 3, inside/after 4 (a `terminate simulation when`
+      condition that evaluates to true ends it at once), or inside 5 …
+    stop* rf*                                      -- 10
 
 `t` is the number of completed iterations: it is carried by the automaton state, so
 `traj/act/sim/upd` must carry the right clock value, `ri` may only occur at `t = 0`, a
@@ -25,6 +26,7 @@ namespace Scenic.SimLoop
 inductive DS
   | start
   | scen (t : Nat)
+  | rini (t : Nat)
   | recs (t : Nat)
   | mon (t : Nat)
   | chk (t : Nat)
@@ -51,18 +53,22 @@ def DS.step : DS → Ev → Option DS
   | .start, .create _ => some .start
   | .start, .upd 0 => some (.scen 0)
   | .start, _ => none
-  | .scen t, .recInit => if t = 0 then some (.recs t) else none
+  | .scen t, .recInit => if t = 0 then some (.rini t) else none
   | .scen t, .recd _ => some (.recs t)
   | .scen t, .traj t' => if t' = t then some (.mon t) else none
   | .scen t, e => if e.isScen then some (.scen t) else none
+  | .rini t, .recInit => some (.rini t)
+  | .rini t, .recd _ => some (.recs t)
+  | .rini t, .traj t' => if t' = t then some (.mon t) else none
+  | .rini _, _ => none
   | .recs t, .recd _ => some (.recs t)
   | .recs t, .traj t' => if t' = t then some (.mon t) else none
   | .recs _, _ => none
-  | .mon t, .cond .termSim _ _ => some (.chk t)
+  | .mon t, .cond .termSim _ v => some (if v then .fin t else .chk t)
   | .mon t, .sched o => some (.beh t o none)
   | .mon t, .recFinal => some (.fin2 t)
   | .mon t, e => if e.isMon then some (.mon t) else none
-  | .chk t, .cond .termSim _ _ => some (.chk t)
+  | .chk t, .cond .termSim _ v => some (if v then .fin t else .chk t)
   | .chk t, .sched o => some (.beh t o none)
   | .chk t, .stop _ => some (.fin t)
   | .chk t, .recFinal => some (.fin2 t)
@@ -84,6 +90,7 @@ def DS.step : DS → Ev → Option DS
   | .fin t, .stop _ => some (.fin t)
   | .fin t, .recFinal => some (.fin2 t)
   | .fin _, _ => none
+  | .fin2 t, .recFinal => some (.fin2 t)
   | .fin2 _, _ => none
 
 def DS.run : DS → List Ev → Option DS
@@ -100,7 +107,7 @@ def DS.final : DS → Bool
 /-- number of completed iterations (= the simulation clock) -/
 def DS.time : DS → Nat
   | .start => 0
-  | .scen t | .recs t | .mon t | .chk t | .beh t _ _ | .act t | .sim t | .fin t | .fin2 t => t
+  | .scen t | .rini t | .recs t | .mon t | .chk t | .beh t _ _ | .act t | .sim t | .fin t | .fin2 t => t
 
 /-- the log of a whole simulation that ended normally -/
 def wellOrdered (log : List Ev) : Bool :=
